@@ -62,7 +62,10 @@ theorem chunk3_short (l : List Nat) (h : l.length < 3) : chunk3 l = [] := by
 theorem lookupCodon_ok (t : CodonTable) (ht : t.codons.length = 64) (a b c : Nat)
     (ha : a < 4) (hb : b < 4) (hc : c < 4) : ∃ aa, lookupCodon t [a, b, c] = .ok aa := by
   have hlt : 16 * a + 4 * b + c < t.codons.length := by omega
-  exact ⟨t.codons[16 * a + 4 * b + c], by simp [lookupCodon, codonNumber, hlt]⟩
+  have hany : [a, b, c].any (fun d => decide (4 ≤ d)) = false := by
+    simp only [List.any_cons, List.any_nil, Bool.or_false, Bool.or_eq_false_iff, decide_eq_false_iff_not]
+    omega
+  exact ⟨t.codons[16 * a + 4 * b + c], by simp [lookupCodon, hany, codonNumber, hlt]⟩
 
 theorem mapCodon_ok (t : CodonTable) (ht : t.codons.length = 64) (l : List Nat) (hl : ∀ c ∈ l, c < 4) :
     ∃ prot, mapE (lookupCodon t) (chunk3 l) = .ok prot := by
@@ -528,7 +531,10 @@ theorem codonTableNew_lookup (nuc prot : List Nat) (hnd : nuc.Nodup) (hn4 : nuc.
         have hslot := tableFill_get nuc prot _ tbl dict htbl hpw e he m' a' hea hm64
         have hcs := hget m' a' hslot
         refine ⟨x, y, z, a', rfl, rfl, ?_⟩
-        simp only [lookupCodon, hm, hcs]
+        have hany : [x, y, z].any (fun d => decide (4 ≤ d)) = false := by
+          simp only [List.any_cons, List.any_nil, Bool.or_false, Bool.or_eq_false_iff, decide_eq_false_iff_not]
+          omega
+        simp only [lookupCodon, hany, Bool.false_eq_true, if_false, hm, hcs]
 
 /-- Complete translation of a DNA string made of dict codons is the list of their dict values. -/
 theorem translate_eq_dict (nuc prot : List Nat) (hnd : nuc.Nodup) (hn4 : nuc.length = 4)
@@ -627,5 +633,73 @@ theorem withMappings_spec (nuc prot : List Nat) (t t' : CodonTable) (d : List (L
           exact hget m a (tableFill_keeps nuc prot _ tbl d htbl m (some a) h0 hd)
       · intro hpw e he m a hea hm
         exact hget m a (tableFill_get nuc prot _ tbl d htbl hpw e he m a hea (by simpa using hm))
+
+/-! ### invalid nucleotide codes are refused -/
+
+theorem lookupCodon_invalid (t : CodonTable) (c : List Nat) (h : ∃ d ∈ c, 4 ≤ d) :
+    lookupCodon t c = .error .alphabetError := by
+  have : c.any (fun d => decide (4 ≤ d)) = true := by simpa using h
+  simp [lookupCodon, this]
+
+theorem lookupCodon_total (t : CodonTable) (ht : t.codons.length = 64) (a b c : Nat) :
+    (∃ aa, lookupCodon t [a, b, c] = .ok aa) ∨ lookupCodon t [a, b, c] = .error .alphabetError := by
+  by_cases h : a < 4 ∧ b < 4 ∧ c < 4
+  · exact .inl (lookupCodon_ok t ht a b c h.1 h.2.1 h.2.2)
+  · refine .inr (lookupCodon_invalid t _ ?_)
+    by_cases ha : 4 ≤ a
+    · exact ⟨a, by simp, ha⟩
+    · by_cases hb : 4 ≤ b
+      · exact ⟨b, by simp, hb⟩
+      · exact ⟨c, by simp, by omega⟩
+
+theorem mem_chunk3 (l : List Nat) (x : List Nat) (hx : x ∈ chunk3 l) : ∃ a b c, x = [a, b, c] ∧ a ∈ l ∧ b ∈ l ∧ c ∈ l := by
+  induction l using chunk3.induct with
+  | case1 a b c rest ih =>
+    rw [chunk3] at hx
+    rcases List.mem_cons.mp hx with rfl | hx
+    · exact ⟨a, b, c, rfl, by simp, by simp, by simp⟩
+    · obtain ⟨a', b', c', rfl, h1, h2, h3⟩ := ih hx
+      exact ⟨a', b', c', rfl, by simp [h1], by simp [h2], by simp [h3]⟩
+  | case2 l h =>
+    have h1 : chunk3 l = [] := by rw [chunk3]; exact h
+    simp [h1] at hx
+
+/-- Complete translation of a code sequence (length divisible by 3) whose complete codons contain a
+code outside `0..3` is an `AlphabetError`; with all codes valid it succeeds. -/
+theorem translateComplete_rejects (t : CodonTable) (ht : t.codons.length = 64) (code : List Nat)
+    (hl : code.length % 3 = 0) :
+    translateComplete t code = .error .alphabetError ↔ ∃ x ∈ chunk3 code, ∃ d ∈ x, 4 ≤ d := by
+  simp only [translateComplete, hl, ne_eq, not_true_eq_false, if_false, mapCodonCodes]
+  rw [mapE_error_iff (lookupCodon t) .alphabetError (chunk3 code)]
+  · constructor
+    · rintro ⟨x, hx, he⟩
+      refine ⟨x, hx, ?_⟩
+      obtain ⟨a, b, c, rfl, _, _, _⟩ := mem_chunk3 code x hx
+      by_cases h : a < 4 ∧ b < 4 ∧ c < 4
+      · obtain ⟨aa, haa⟩ := lookupCodon_ok t ht a b c h.1 h.2.1 h.2.2
+        rw [haa] at he; cases he
+      · by_cases ha : 4 ≤ a
+        · exact ⟨a, by simp, ha⟩
+        · by_cases hb : 4 ≤ b
+          · exact ⟨b, by simp, hb⟩
+          · exact ⟨c, by simp, by omega⟩
+    · rintro ⟨x, hx, hd⟩
+      exact ⟨x, hx, lookupCodon_invalid t x hd⟩
+  · intro x hx
+    obtain ⟨a, b, c, rfl, _, _, _⟩ := mem_chunk3 code x hx
+    exact lookupCodon_total t ht a b c
+
+/-- `CodonTable.__init__` refuses start codons that are not 3 letters long and an empty start list. -/
+theorem codonTableNew_rejects (nuc prot : List Nat) (dict : List (List Nat × Nat)) (starts : List (List Nat)) :
+    ((∃ s ∈ starts, s.length ≠ 3) → codonTableNew nuc prot dict starts = .error .valueError) ∧
+    (starts = [] → codonTableNew nuc prot dict starts = .error .valueError) := by
+  constructor
+  · intro h
+    have : starts.any (fun s => decide (s.length ≠ 3)) = true := by simpa using h
+    unfold codonTableNew
+    rw [if_pos this]
+  · intro h
+    subst h
+    simp [codonTableNew, mapE]
 
 end BiotiteModel.C03
